@@ -297,6 +297,16 @@ func c05Preamble(r *rand.Rand, class string, id int) []byte {
 		return append([]byte(nil), large...)
 	case "http":
 		return []byte(fmt.Sprintf("GET /c05/%d HTTP/1.1\r\nHost: c05-%d.example.com\r\nUser-Agent: verif\r\nAccept: */*\r\n\r\n", id, id))
+	case "http-longhost":
+		// the Host line is the long tail of what a trickling client has sent so far
+		lbl := func(n int) string {
+			b := c05RandBytes(r, n)
+			for i := range b {
+				b[i] = 'a' + b[i]%26
+			}
+			return string(b)
+		}
+		return []byte(fmt.Sprintf("GET /c05/%d HTTP/1.1\r\nUser-Agent: verif\r\nHost: c05-%d.%s.%s.%s.example.com\r\nAccept: */*\r\n\r\n", id, id, lbl(60), lbl(60), lbl(50)))
 	case "http-big":
 		return []byte(fmt.Sprintf("POST /c05/%d HTTP/1.1\r\nX-Pad: %s\r\nHost: c05-%d.example.com\r\n\r\n", id, strings.Repeat("p", 3000+r.IntN(3000)), id))
 	case "tlsish-garbage":
@@ -367,6 +377,16 @@ type c05Case struct {
 	OldConn bool `json:"old_connection_before_half_close"`
 	// DialDelayMs: time the (simulated) upstream dial takes between composition and relay start.
 	DialDelayMs int `json:"dial_delay_ms"`
+	// Trickle: the client's first flight (first_bytes) arrives as this many fragments, TrickleMs apart,
+	// every gap shorter than the detection window and the whole flight far longer than it.
+	Trickle   int `json:"trickle_fragments,omitempty"`
+	TrickleMs int `json:"trickle_spacing_ms,omitempty"`
+	// TinyBuf: SO_SNDBUF of dae's dialled upstream socket and SO_RCVBUF of the upstream's socket (bytes);
+	// the upstream starts reading ReadDelayMs after accepting: the first write of the copy path meets a
+	// full socket. TinyBoth: the same on the client side (dae's accepted socket / the client's socket).
+	TinyBuf     int  `json:"tiny_socket_buffers,omitempty"`
+	TinyBoth    bool `json:"tiny_socket_buffers_client_side_too,omitempty"`
+	ReadDelayMs int  `json:"receiver_starts_reading_after_ms,omitempty"`
 }
 
 func c05Pick[T any](r *rand.Rand, xs ...T) T { return xs[r.IntN(len(xs))] }
@@ -607,9 +627,27 @@ type c05Heartbeat struct {
 	}
 	max  time.Duration
 	stop chan struct{}
+	// completed rounds of the two probes (see settle)
+	ticksTimer, ticksSock atomic.Int64
+	sockProbe             atomic.Bool
 }
 
 var c05HB = &c05Heartbeat{}
+
+// settle waits until both probes have completed two more rounds. A stall that ended just before a
+// verdict is drawn wakes the judged goroutine and the probes at the same moment; whichever runs first
+// wins, so the lag list is only consulted after the probes had their turn. false = they did not get
+// it within 3 s (the machine is not calm).
+func (h *c05Heartbeat) settle() bool {
+	a, b := h.ticksTimer.Load(), h.ticksSock.Load()
+	for dl := time.Now().Add(3 * time.Second); time.Now().Before(dl); {
+		if h.ticksTimer.Load() >= a+2 && (!h.sockProbe.Load() || h.ticksSock.Load() >= b+2) {
+			return true
+		}
+		time.Sleep(time.Millisecond)
+	}
+	return false
+}
 
 func (h *c05Heartbeat) start() {
 	h.stop = make(chan struct{})
@@ -636,6 +674,7 @@ func (h *c05Heartbeat) start() {
 				h.mu.Unlock()
 			}
 			prev = now
+			h.ticksTimer.Add(1)
 		}
 	}()
 	// Second probe: a goroutine woken by a timer (or a channel) is run next on its P, whereas a
@@ -692,8 +731,10 @@ func (h *c05Heartbeat) start() {
 				}
 				h.mu.Unlock()
 			}
+			h.ticksSock.Add(1)
 		}
 	}()
+	h.sockProbe.Store(true)
 }
 
 // maxLag is the largest oversleep whose interval overlaps [from, to].
@@ -710,7 +751,8 @@ func (h *c05Heartbeat) maxLag(from, to time.Time) time.Duration {
 }
 
 func (x *c05Run) calm(from time.Time) bool {
-	if c05HB.maxLag(from, time.Now()) >= c05LagLimit {
+	to := time.Now()
+	if !c05HB.settle() || c05HB.maxLag(from, to) >= c05LagLimit {
 		x.m.Count("timing_verdict_skipped_scheduler_lag", 1)
 		return false
 	}
@@ -734,6 +776,8 @@ type c05Peer struct {
 	werr  atomic.Value
 	werrA atomic.Int64
 	rdone chan struct{}
+	// readDelay: the peer's application starts reading this long after the connection is up
+	readDelay time.Duration
 }
 
 type c05Run struct {
@@ -762,6 +806,7 @@ type c05Run struct {
 	pathR2L     c05PathSet
 
 	cutReported bool
+	trk         c05TrickleState
 
 	evMu   sync.Mutex
 	events []string
@@ -798,7 +843,13 @@ func (x *c05Run) wait(cond func() bool, max time.Duration) bool {
 func (p *c05Peer) reader(x *c05Run) {
 	defer close(p.rdone)
 	buf := make([]byte, 64<<10)
+	if p.readDelay > 0 {
+		time.Sleep(p.readDelay)
+	}
 	for i := 0; ; i++ {
+		if p.readDelay > 0 && i < 60 {
+			time.Sleep(time.Millisecond) // keeps draining slowly for a while: the sender's socket stays full
+		}
 		if x.cs.SmallWin && i < 150 {
 			time.Sleep(2 * time.Millisecond) // slow consumer: lets the relay's socket buffers fill
 		}
@@ -919,6 +970,9 @@ func (x *c05Run) daeSide(lConn *net.TCPConn, upstream *net.TCPAddr, dst netip.Ad
 		x.composeErr = "harness dial: " + err.Error()
 		x.relayDoneAt.Store(x.now())
 		return
+	}
+	if x.cs.TinyBuf > 0 {
+		_ = rRaw.SetWriteBuffer(x.cs.TinyBuf)
 	}
 	var rConn netproxy.Conn = rRaw
 	if x.cs.RConn == "opaque" {
@@ -1152,7 +1206,7 @@ func (x *c05Run) run() {
 	}
 	// first burst / gap (partial prefix)
 	cs.Split, cs.Gap = 0, "none"
-	if cOut.total-late > 1 && r.IntN(2) == 0 {
+	if cs.Trickle == 0 && cs.TinyBuf == 0 && cOut.total-late > 1 && r.IntN(2) == 0 {
 		cands := []int{1, 2, 5, 15, 16, 17, len(pre) / 2, len(pre) - 1, len(pre), len(pre) + 3, 600}
 		k := cands[r.IntN(len(cands))]
 		if k >= 1 && int64(k) < cOut.total-late {
@@ -1177,7 +1231,10 @@ func (x *c05Run) run() {
 		return
 	}
 	defer lnB.Close()
-	cliConn, err := net.DialTCP("tcp", nil, lnA.Addr().(*net.TCPAddr))
+	if cs.TinyBuf > 0 {
+		c05SetListenerRcvBuf(lnB, cs.TinyBuf) // inherited by the accepted socket, in force before the handshake
+	}
+	cliConn, err := c05DialLoopback(lnA.Addr().(*net.TCPAddr), c05If(cs.TinyBoth, cs.TinyBuf, 0))
 	if err != nil {
 		m.Inconclusive("dial: %v", err)
 		return
@@ -1188,6 +1245,9 @@ func (x *c05Run) run() {
 		_ = cliConn.SetReadBuffer(128 << 10)
 	}
 	x.cli = &c05Peer{name: "client", conn: cliConn, out: cOut, chk: &c05Checker{s: sOut}, rdone: make(chan struct{})}
+	if cs.TinyBoth {
+		x.cli.readDelay = time.Duration(cs.ReadDelayMs) * time.Millisecond
+	}
 	cBulkEnd, sBulkEnd := cOut.total-late, sOut.total-late
 	tailLen := int64(6 * (1 + r.IntN(200)))
 	var cTail, sTail int64
@@ -1233,6 +1293,9 @@ func (x *c05Run) run() {
 	if wroteFirst {
 		time.Sleep(2 * time.Millisecond)
 	}
+	if cs.TinyBoth {
+		_ = lConn.SetWriteBuffer(cs.TinyBuf)
+	}
 	x.t0 = time.Now() // composition start
 	go x.cli.reader(x)
 
@@ -1252,7 +1315,10 @@ func (x *c05Run) run() {
 	cr := rand.New(rand.NewPCG(cs.CaseSeed, 1))
 	go func() {
 		ok := true
-		if !wroteFirst {
+		if cs.Trickle > 0 {
+			ok = x.sendTrickle(pre, window)
+			preAccept = int64(len(pre))
+		} else if !wroteFirst {
 			switch cs.Arrival {
 			case "inside":
 				time.Sleep(min(window/3, 1500*time.Millisecond))
@@ -1301,6 +1367,9 @@ func (x *c05Run) run() {
 		_ = srvConn.SetReadBuffer(128 << 10)
 	}
 	x.srv = &c05Peer{name: "upstream", conn: srvConn, out: sOut, chk: &c05Checker{s: cOut}, rdone: make(chan struct{})}
+	if cs.TinyBuf > 0 {
+		x.srv.readDelay = time.Duration(cs.ReadDelayMs) * time.Millisecond
+	}
 	go x.srv.reader(x)
 	sBulkDone := make(chan bool, 1)
 	sr := rand.New(rand.NewPCG(cs.CaseSeed, 2))
@@ -1320,9 +1389,12 @@ func (x *c05Run) run() {
 
 	// composition delay (detection windows)
 	<-x.composed
-	if x.composeDur > x.comp.windows+2*time.Second && x.calm(x.t0) {
+	if cs.Trickle > 0 {
+		x.noteTrickleAtComposition()
+	}
+	if x.composeDur > x.comp.windows+2*time.Second && x.calm(x.t0) && (cs.Trickle == 0 || x.trickleDelayRepeats(pre, dst, rr)) {
 		x.violate("detection-delay/"+x.comp.outcome, fmt.Sprintf("protocol detection delayed the connection by %.0f ms, windows sum to %.0f ms",
-			ms(int64(x.composeDur)), ms(int64(x.comp.windows))), nil)
+			ms(int64(x.composeDur)), ms(int64(x.comp.windows))), c05If(cs.Trickle > 0, x.trickleWitness(), nil))
 	}
 
 	// phase 1: bulk
@@ -1542,6 +1614,25 @@ func (x *c05Run) run() {
 	}
 	if cs.SmallWin {
 		m.Count("small_window_backpressure", 1)
+	}
+	if cs.TinyBuf > 0 {
+		// the first write of these copy paths went to a socket with a tiny send buffer whose peer was not reading yet
+		for _, p := range strings.Split(pl, "+") {
+			if p != "" {
+				m.Count("tinybuf_l2r_path_"+p, 1)
+			}
+		}
+		if cs.TinyBoth {
+			for _, p := range strings.Split(pr, "+") {
+				if p != "" {
+					m.Count("tinybuf_r2l_path_"+p, 1)
+				}
+			}
+		}
+		m.Count("tinybuf_outcome_"+x.comp.outcome, 1)
+	}
+	if cs.Trickle > 0 {
+		m.Count("trickle_cases_completed", 1)
 	}
 	if cs.LongGrace && cs.Close != "never" {
 		m.Count("long_grace_4s", 1)
@@ -1781,6 +1872,8 @@ func TestVerifC05(t *testing.T) {
 		relayGatherWriteTestHookMu.Unlock()
 	}()
 
+	var wv c05WritevObs
+	defer wv.install()()
 	c05HB.start()
 	defer close(c05HB.stop)
 	cps := map[int]*ControlPlane{}
@@ -1791,15 +1884,17 @@ func TestVerifC05(t *testing.T) {
 	for i := range cases {
 		cases[i] = c05GenCase(r, i+1, &budget)
 	}
-	// long-running (port 53) cases first so that they overlap with the rest
-	order := make([]int, n)
+	// trickled first flights and back-pressure on the first write (c05_edge_verif_test.go), from a
+	// generator of their own so that the cases above stay what they were
+	cases = append(cases, c05GenEdgeCases(vk.NewRand(0xC05ED), 10000)...)
+	// long-running (port 53, trickle) cases first so that they overlap with the rest
+	order := make([]int, len(cases))
 	for i := range order {
 		order[i] = i
 	}
+	long := func(cs *c05Case) bool { return cs.Stack == "dns53" || cs.OldConn || cs.Trickle > 0 }
 	sort.SliceStable(order, func(a, b int) bool {
-		la := cases[order[a]].Stack == "dns53" || cases[order[a]].OldConn
-		lb := cases[order[b]].Stack == "dns53" || cases[order[b]].OldConn
-		return la && !lb
+		return long(cases[order[a]]) && !long(cases[order[b]])
 	})
 	sem := make(chan struct{}, par)
 	var wg sync.WaitGroup
@@ -1908,6 +2003,12 @@ func TestVerifC05(t *testing.T) {
 	c05HB.mu.Unlock()
 	m.Count("gather_hook_calls", gatherCalls.Load())
 	m.Count("gather_hook_with_pending_body", gatherWithBody.Load())
+	wv.report(m)
+	m.Require("trickle_sniff_detection_ended_mid_flight", "trickle_dns53_detection_ended_mid_flight", "trickle_every_gap_shorter_than_window",
+		"trickle_detection_delay_judged", "trickle_cases_completed", "trickle_first_bytes_tls-small", "trickle_first_bytes_tls-large", "trickle_first_bytes_http-longhost",
+		"tinybuf_l2r_path_gather", "tinybuf_l2r_path_splice", "tinybuf_l2r_path_loop", "tinybuf_r2l_path_splice", "tinybuf_r2l_path_loop",
+		"tinybuf_outcome_prefixed", "tinybuf_outcome_sniffer-ok", "tinybuf_outcome_bufio",
+		"gather_writev_short_ending_inside_a_segment", "gather_writev_short_inside_segment_then_eagain")
 	m.Require("path_gather", "path_splice", "path_loop", "gather_hook_calls",
 		"eof_propagated_l2r", "eof_propagated_r2l", "grace_flow_delivered", "alive_after_window", "late_unit_delivered", "eager_close", "long_grace_4s", "small_window_backpressure", "old_connection_half_close",
 		"outcome_plain", "outcome_bufio", "outcome_prefixed", "outcome_sniffer-ok", "outcome_raw-noready",
